@@ -36,8 +36,8 @@ for i, v in ipairs(t) do
   end
 end
 return t[1], t.x`, ""},
-		{"eb-strings", "local s = [[\nmulti\nline]] .. \"a\\\nb\" .. [==[\r\nx\ry]==] --[[ comment\n over lines ]]\nlocal u = s:upper():lower()\ndo local c <const> = #u goto l ::l:: end\nreturn (u)", ""},
-		{"eb-table", `local cfg = {
+	{"eb-strings", "local s = [[\nmulti\nline]] .. \"a\\\nb\" .. [==[\r\nx\ry]==] --[[ comment\n over lines ]]\nlocal u = s:upper():lower()\ndo local c <const> = #u goto l ::l:: end\nreturn (u)", ""},
+	{"eb-table", `local cfg = {
   name = "x",
   list = { 1, 2, 3; 4 },
   fn = function(self, ...)
